@@ -46,6 +46,19 @@ def hasBadProp (ops : Ops DT Val) : DT → List (Name × Val) → Bool
        | .ok dt' => hasBadProp ops dt' rest
        | _ => false)
 
+/-- "each configured … parameter property … is applied": the parameter's own properties (readonly, visibility, export,
+group, description, …) after the cfg — every configured one set to its value converted by the property's datatype, in
+the order written, the others as the class has them -/
+def ownAfter (ops : Ops DT Val) : List (Name × Val) → List (Name × Val) → List (Name × Val)
+  | own, [] => own
+  | own, (k, v) :: rest =>
+    if isValueKey k then ownAfter ops own rest
+    else match ops.ownProp k with
+      | some f => (match f v with
+        | some v' => ownAfter ops (setKey k v' own) rest
+        | none => own)                      -- erroneous entry: the module is rejected
+      | none => ownAfter ops own rest
+
 def cfgOf (name : Name) (cfg : Cfg Val) : Option (List (Name × Val)) :=
   match lookup name cfg with
   | some (.acc items) => some items
@@ -108,11 +121,63 @@ inductive Offence (ops : Ops DT Val) (c : ClassDesc DT Val) (cfg : Cfg Val) : Pr
   /-- mandatory property missing -/
   | mandatory (d : ModPropDesc Val) : d ∈ c.modProps → d.mandatory = true → d.classValue = none →
       lookup d.name cfg = none → Offence ops c cfg
+  /-- a command configured with an unknown property, or with a property value of the wrong type -/
+  | cmdProp (n : Name) (items : List (Name × Val)) (k : Name) (v : Val) : n ∈ c.otherNames →
+      lookup n cfg = some (.acc items) → (k, v) ∈ items →
+      (match ops.cmdProp k with | some f => (f v).isNone | none => true) = true → Offence ops c cfg
   /-- something wrong in the cfg of a parameter (own datatype, or derived limit) -/
   | param (pd : ParamDesc DT Val) (dt0 : DT) (dflt : Option Val) (items : List (Name × Val)) : pd ∈ c.params →
       startOf ops c cfg pd = some (dt0, dflt) →
       (lookup pd.name cfg = some (.acc items) ∨ (lookup pd.name cfg = none ∧ items = [])) →
       ParamOffence ops pd dt0 dflt items → Offence ops c cfg
+
+/-! ## the configuration as it is WRITTEN in a configuration file
+
+"Param() vs bare value": `key=v` configures the value `v` of `key`; `key=Param(v, k=x, …)` configures the value `v` and
+the properties `k = x` in the order written; `key=Param(k=x, …)` configures properties only; `g=Group('a', 'b')` configures
+the property `group = 'g'` of `a` and of `b`.  Whatever is written counts — a written value `None`, `0`, `''` is a
+configured value (and has to be of the right type). -/
+
+def writtenItems : DslArg Val → Option (List (Name × Val))
+  | .bare v => some [("value", v)]
+  | .param (some v) kwds => some (kwds ++ [("value", v)])
+  | .param none kwds => some kwds
+  | .group _ => none
+
+/-- the group a `Group(…)` argument puts `k` into (the last one naming it) -/
+def groupFor (args : List (Name × DslArg Val)) (k : Name) : Option Name :=
+  args.foldl (fun acc kv => match kv.2 with
+    | .group ms => if ms.contains k then some kv.1 else acc
+    | _ => acc) none
+
+def withGroup (mkStr : Name → Val) (g : Option Name) (items : List (Name × Val)) : List (Name × Val) :=
+  match g with
+  | some g => setKey "group" (mkStr g) items
+  | none => items
+
+/-- the module configuration a `Mod(name, cls, description, args…)` call stands for -/
+def specCfg (mkStr : Name → Val) (description : Val) (args : List (Name × DslArg Val)) : Cfg Val :=
+  ("description", Entry.prop (.bare description)) ::
+  args.filterMap fun kv => (writtenItems kv.2).map fun items =>
+    (kv.1, Entry.acc (withGroup mkStr (groupFor args kv.1) items))
+
+/-- the hypotheses of `dsl_faithful` as a check the driver runs on every module it is given as written: keywords are
+distinct, none is `description`, no `Param(v, value=…)`, every group member has an argument of its own -/
+def writtenOkB (args : List (Name × DslArg Val)) : Bool :=
+  decide ((args.map (·.1)).Nodup) && !(args.map (·.1)).contains "description" &&
+  (args.all fun kv => match kv.2 with
+    | .param (some _) kwds => (lookup "value" kwds).isNone
+    | _ => true) &&
+  (args.all fun kv => match kv.2 with
+    | .group ms => ms.all fun m => args.any fun kv' => kv'.1 == m && (writtenItems kv'.2).isSome
+    | _ => true)
+
+/-- the hypotheses of the theorems about a class description (`WellFormed`) as a check the driver runs on every
+description read off a real class: distinct property names, distinct parameter names, the base of a limit parameter is
+not itself a limit -/
+def wellFormedB (c : ClassDesc DT Val) : Bool :=
+  decide ((c.modProps.map (·.name)).Nodup) && decide ((c.params.map (·.name)).Nodup) &&
+  c.params.all fun pd => !pd.limit.isSome || c.params.all fun b => b.name != pd.base || b.limit.isNone
 
 /-! ## what is observed on the implementation -/
 
@@ -164,9 +229,10 @@ def paramAppliedB (ops : Ops DT Val) (g : Glue DT Val) (pd : ParamDesc DT Val) (
      | none => match givenFor "default" dflt items with
        | some d => optB g.beqVal o.value (ops.convert dt' d)
        | none => true) &&
-    -- configured own properties
-    (o.described.isNone || items.all fun kv => match ops.ownProp kv.1 with
-      | some f => if kv.1 = "readonly" || kv.1 = "visibility" then optB g.beqVal (lookup kv.1 o.own) (f kv.2) else true
+    -- own properties as described: the class values with the configured ones set (`ownAfter`)
+    (o.described.isNone || ["readonly", "visibility", "group"].all fun k =>
+      match lookup k (ownAfter ops pd.own items) with
+      | some v => optB g.beqVal (lookup k o.own) (some v)
       | none => true) &&
     -- export: described under the configured name, reachable under it and under no other
     (let ex := g.exportName pd.name (match lookup "export" items with
@@ -180,8 +246,30 @@ def paramAppliedB (ops : Ops DT Val) (g : Glue DT Val) (pd : ParamDesc DT Val) (
     -- later range checks use them
     (o.probes.all fun pr => pr.2 == (ops.validate dt' pr.1).isSome)
 
+/-- the value the configuration gives for a module property -/
+def propGiven (d : ModPropDesc Val) (cfg : Cfg Val) : Option Val :=
+  match lookup d.name cfg with
+  | some (.prop (.bare v)) => some v
+  | some (.prop (.dict v)) => v
+  | some (.acc items) => lookup "value" items
+  | none => none
+
+/-- "each configured module property … is applied to that instance": the instance shows the configured value,
+converted to the property's datatype — on EVERY instance built from the configuration (each module of a file, each
+start of the node) -/
+def modPropsB (g : Glue DT Val) (c : ClassDesc DT Val) (cfg : Cfg Val) (o : ObsModule DT Val) : Bool :=
+  !o.registered ||
+  c.modProps.all fun d =>
+    match propGiven d cfg with
+    | some v =>
+      (match d.validate v, lookup d.name o.modProps with
+       | some v', some w => g.beqVal w v'
+       | _, _ => true)          -- not observed; an ill-typed value is judged by `rejectedB`
+    | none => true
+
 def appliedB (ops : Ops DT Val) (g : Glue DT Val) (c : ClassDesc DT Val) (cfg : Cfg Val) (o : ObsModule DT Val) : Bool :=
   !o.registered ||
+  modPropsB g c cfg o &&
   c.params.all fun pd =>
     match startOf ops c cfg pd with
     | some (dt0, dflt) =>
@@ -260,6 +348,12 @@ def offendingB (ops : Ops DT Val) (c : ClassDesc DT Val) (cfg : Cfg Val) : Bool 
         (match lookup "value" items with | some v => (d.validate v).isNone | none => false)
     | none => d.mandatory && d.classValue.isNone
     | _ => false) ||
+  (c.otherNames.any fun n =>
+    match lookup n cfg with
+    | some (.acc items) => items.any fun kv => match ops.cmdProp kv.1 with
+      | some f => (f kv.2).isNone
+      | none => true
+    | _ => false) ||
   (c.params.any fun pd =>
     match startOf ops c cfg pd with
     | some (dt0, dflt) =>
@@ -281,6 +375,7 @@ def outsideB (c : ClassDesc DT Val) (cfg : Cfg Val) : Bool :=
     | some (.prop (.dict none)) => true
     | some (.acc items) => (lookup "value" items).isNone
     | _ => false) ||
+  (c.otherNames.any fun n => match lookup n cfg with | some (.prop _) => true | _ => false) ||
   (c.params.any fun pd => (match lookup pd.name cfg with | some (.prop _) => true | _ => false) ||
     (pd.dt.isNone && (pd.limit.isNone || !(c.params.any fun b => b.name == pd.base && b.dt.isSome))))
 
